@@ -193,9 +193,18 @@ Definition cls_F15 (c : case_C16) : bool :=
   match model_paths c with Some ds => exists_pair raw_nested ds | None => false end.
 (* F20: two path strings that are neither equal nor token-nested, but denote the same or nested
    locations once normalised ('x' / 'x/', '.', 'a//b'): both checks compare raw strings *)
+(* ... or a single path whose own lexical prefixes already create its final location ('a/..') *)
+Definition self_clash (d : str) : bool :=
+  let comps := filter (fun c => negb (is_empty c || str_eqb c dot)) (split 47 (pjoin2 TARGET_STR d)) in
+  let locs := List.map (resolve_comps []) (lex_prefixes [] comps) in
+  match last locs None with
+  | Some p => existsb (fun l => match l with Some q => fpath_eqb p q | None => false end) (removelast locs)
+  | None => false
+  end.
 Definition cls_F20 (c : case_C16) : bool :=
   match model_paths c with
   | Some ds => exists_pair (fun a b => negb (str_eqb a b) && negb (raw_nested a b) && (loc_clash a b || lex_clash a b)) ds
+               || existsb self_clash ds
   | None => false
   end.
 (* F6: zip target, and some member name starts with a job's root string without lying below that
@@ -243,7 +252,7 @@ Definition known_tag (c : case_C16) : N :=
   if holds_C16 c then 0 else
   let expl_unique := h_unique c || cls_F7 c || cls_F20 c || cls_F15 c in
   let expl_leaf := h_leafnode c || cls_F15 c || cls_F20 c in
-  let expl_clean := h_raise_clean c || cls_F7 c || cls_F20 c || cls_F15 c in
+  let expl_clean := h_raise_clean c || cls_F7 c || cls_F20 c || cls_F15 c || cls_F19 c in
   let expl_xcont := h_export_contained c || cls_F19 c in
   let expl_icont := h_import_contained c || cls_F6 c in
   let expl_over := h_no_overwrite c || cls_F6 c in
